@@ -196,6 +196,13 @@ def bez2poly(c, n):
     c.ensures('segment-input', ops.eq(bez.horner(co, t), bez.bern(P, t)))
     co2 = c.items(c.call('path.bez2poly', tuple(P)))
     c.ensures('tuple-input', ops.eq(list(co2), list(co)))
+    # the wrapper hands both of its options on, whatever the kind of input
+    co3 = c.items(c.call('path.bez2poly', seg, numpy_ordering=False))
+    c.ensures('segment-input,standard-ordering', ops.eq(list(co3), list(reversed(list(co)))))
+    co4 = c.items(c.call('path.bez2poly', tuple(P), numpy_ordering=False))
+    c.ensures('tuple-input,standard-ordering', ops.eq(list(co4), list(reversed(list(co)))))
+    p2 = c.call('path.bez2poly', tuple(P), return_poly1d=True)
+    c.ensures('tuple-input,poly1d', ops.eq(c.call(p2, t), bez.bern(P, t)))
     p = c.call('path.bez2poly', seg, return_poly1d=True)
     c.ensures('agrees-with-poly()', ops.eq(c.call(p, t), c.call(c.callm(seg, 'poly'), t)))
     back = c.call('path.poly2bez', tuple(co))
